@@ -17,7 +17,7 @@ fn col(c: Color) -> u8 {
 // ------------------------------------------------------------------ C08 sliders
 macro_rules! slider_group {
     ($name:ident, $f:ident, $spec:path, $lo:expr, $hi:expr) => {
-        #[kani::proof_for_contract($f)]
+        #[kani::proof]
         #[kani::unwind(9)]
         fn $name() {
             let pos: Pos = kani::any();
@@ -95,7 +95,7 @@ fn c09_between_contract() {
     let r = between(a, b);
     assert!(r.to_u64() == g::between_spec(a as u8, b as u8), "VERIF between({:?},{:?}) = {:#x}", a, b, r.to_u64());
 }
-#[kani::proof_for_contract(line)]
+#[kani::proof]
 #[kani::unwind(9)]
 fn c09_line_contract() {
     let (a, b): (Pos, Pos) = (kani::any(), kani::any());
